@@ -68,12 +68,3 @@ Definition model_trace (c : hcase) :=
 
 Definition check_corr_only (c : hcase) : verdict := V (hist_corr c) None.
 
-(* per-property checks: correspondence plus the property's monitor (Cases/Monitors*.v extend these) *)
-Definition check_C01 := check_corr_only.
-Definition check_C02 := check_corr_only.
-Definition check_C03 := check_corr_only.
-Definition check_C04 := check_corr_only.
-Definition check_C05 := check_corr_only.
-Definition check_C07 := check_corr_only.
-Definition check_C08 := check_corr_only.
-Definition check_C09 := check_corr_only.
